@@ -5,6 +5,7 @@ import (
 	"fmt"
 	"math"
 	"math/rand"
+	"sort"
 	"strings"
 
 	"github.com/aclements/go-moremath/stats"
@@ -186,17 +187,29 @@ func genSmpHistory(w *bufio.Writer, rng *rand.Rand, maxN int, quantOnly bool) {
 		}
 		xs := smpValues(rng, n, positive)
 		ws := "-"
+		var wv []float64
 		if rng.Intn(3) == 0 {
-			ws = fmtFs(smpWeights(rng, n))
+			wv = smpWeights(rng, n)
 			weighted[id] = true
 		}
 		flag := 0
 		if rng.Intn(4) == 0 {
-			// Sorted flag only on ascending data (keep weights aligned: sort indices)
+			// Sorted flag only on ascending data (the weights stay attached to their values)
 			if !weighted[id] {
 				sortFloats(xs)
-				flag = 1
+			} else {
+				idx := rng.Perm(n)
+				sort.SliceStable(idx, func(i, j int) bool { return xs[idx[i]] < xs[idx[j]] })
+				nx, nw := make([]float64, n), make([]float64, n)
+				for k, i := range idx {
+					nx[k], nw[k] = xs[i], wv[i]
+				}
+				xs, wv = nx, nw
 			}
+			flag = 1
+		}
+		if wv != nil {
+			ws = fmtFs(wv)
 		}
 		sortedFlag[id] = flag == 1
 		size[id] = n
